@@ -9,6 +9,27 @@ sys.dont_write_bytecode = True
 
 NOT_APPLICABLE = {}
 
+TECHNIQUE = {
+ "C01": "abstract interpretation of the glue functions (get_stub, get_updated_definition, from_callable_and_traced_types) with symbolic types: nothing observed is dropped; wiring clause only",
+ "C02": "abstract interpretation of CallTracer.handle_return/handle_call/__call__ over every event point of a compiled (not executed) opcode corpus x tracer state: typestate of self.traces, exit-opcode table agreement; provenance (value origins on the CFG) for attribution by code identity",
+ "C03": "interprocedural taint/effect analysis over the tracer's call graph with a CPython data-model catalogue (hookable operations on program values) and exact-type guard dominance; CFG path analysis of containment and restore/flush pairing incl. exception edges",
+ "C04": "abstract interpretation of get_type/get_dict_type/shrink_types/shrink_typed_dict_types with symbolic elements over the full dispatch partition and all permutations of bounded multisets: coverage of every element and input, order independence",
+ "C05": "same abstract inference tables: exact-class fall-through, constant-type provenance (Any/Callable/Type/str only in enumerated cells), witness of every result leaf, required/optional classification",
+ "C06": "parameter-forwarding analysis (argument binding at every call site of max_typed_dict_size carriers) + abstract decision tables of get_dict_type / merging against the limit",
+ "C07": "abstract interpretation of the shipped rewriters over ~1400 abstract unions (class hierarchy with multiple inheritance, exceptions as outcomes) checked by an independent subtype oracle and independently computed triggers",
+ "C08": "abstract interpretation and composition of encoder and decoder (type_to_json o type_from_json, from_trace o to_trace) over abstract types; table agreement of CREATE/INSERT/SELECT/constructor extracted from folded SQL",
+ "C09": "embedded-SQL analysis: SQL text folded by abstract interpretation of make_query/add/list_modules, parsed, judged by a sqlite-semantics catalogue; effect-sequence analysis of add (one transaction) and of serialize_traces with failures at every position",
+ "C10": "exception-escape analysis: abstract interpretation of CallTraceRow.to_trace in abstract worlds with one stale name; raised class must be a subclass (hierarchy from exceptions.py) of the class get_stub tolerates; decision table of get_stub over row-outcome sequences",
+ "C11": "static translation validation: the stub pipeline is interpreted abstractly down to concrete text, which the checker parses and evaluates in the namespace the stub provides; str.replace sites blamed by idealisation",
+ "C12": "abstract rendering + ast.parse oracle: every parameter-kind sequence rendered (one line / wrapped) must parse back to the same parameters; descriptor -> kind -> decorator -> receiver tables; build_module_stubs interpreted",
+ "C13": "complete decision tables of update_signature_args / update_signature_return / Optional wrap extracted by abstract interpretation over the full atom space; argparse flag table; strategy forwarding",
+ "C14": "permutation invariance by abstract interpretation: traces->type sets, definitions->rendered text, rewriters over member orders; eq/hash field agreement; process-dependent-call scan",
+ "C15": "effect-sequence analysis of apply_stub_handler by abstract interpretation (who writes what, when); argument binding against the installed libcst's signature read from its source",
+ "C16": "complete decision table of RemoveImportsTransformer.leave_Import/leave_ImportFrom over statements x move lists; cross-module table agreement for runtime imports; abstract interpretation of _split_module and apply_stub_using_libcst",
+ "C17": "abstract interpretation of CallTracer.__call__ over event x filter verdict, of the store logger over module names, of default_code_filter on synthetic names; structural dataflow rules for path resolution and library roots; forwarding analysis",
+ "C18": "abstract interpretation of handle_call over every call-event point of the compiled corpus x rate x every draw x tracer state: 1-in-N gate, no residue, no trace at resumption, non-interference of the draw",
+}
+
 def main():
     props = [json.loads(l) for l in open(os.path.join(HERE, "properties.jsonl"))]
     checks, na = [], []
@@ -30,7 +51,7 @@ def main():
                     "design_ref": f"DESIGN.md section 1, {pid}",
                 },
                 "level_note": getattr(m, "LEVEL_NOTE", "trusted base: CPython semantics of the constructs analysed and the platform catalogue listed in the evidence file; decides the named structural clauses only, not the runtime behaviour as a whole"),
-                "technique": getattr(m, "TECHNIQUE", "static analysis (ast + CFG + abstract interpretation)"),
+                "technique": "static analysis: " + TECHNIQUE.get(pid, getattr(m, "TECHNIQUE", "ast + CFG + abstract interpretation")),
             })
         else:
             na.append({"property_id": pid, "reason": NOT_APPLICABLE.get(pid, "check not built yet (work in progress; see DESIGN.md for the planned static rules)")})
